@@ -6,14 +6,16 @@ from ..rules import scenario as SC
 from ..rules import process as Pr
 
 EXPLANATION = (
-    "Static analysis. Decides: parameter flow of kill_workers from get_reusable_executor through shutdown() into the flag "
-    "(stored under the lock, not reset by the manager's own re-flagging); in the manager's shutting-down routine, on the "
-    "kill flag's true branch every pending item is removed atomically and failed with ShutdownExecutorError BEFORE the "
-    "kill, and the kill routine empties the worker table killing every tree (R-KILL-PATH, R-OWN-RESOLVE); both kill-tree "
-    "implementations enumerate children before killing the parent, deepest first, and reap (R-KILL-TREE), the reap of a "
-    "killed worker being a blocking waitpid that does not wait for the sentinel pipe, which outlives the worker when a "
-    "descendant inherited it (R-EXITCODE); the manager "
-    "then exits through the empty-pending branch (R-MGR-EXIT). Not decided: wall-clock promptness; psutil/pgrep semantics."
+    'Static analysis. Decides: parameter flow of kill_workers from get_reusable_executor through shutdown() into the '
+    "flag (stored under the lock, not reset by the manager's own re-flagging); in the manager's shutting-down "
+    "routine, on the kill flag's true branch every pending item is removed atomically and failed with "
+    'ShutdownExecutorError BEFORE the kill, and the kill routine empties the worker table killing every tree '
+    '(R-KILL-PATH, R-OWN-RESOLVE); both kill-tree implementations enumerate children before killing the parent, '
+    'deepest first, and reap (R-KILL-TREE), the reap of a killed worker being a blocking waitpid that does not wait '
+    'for the sentinel pipe, which outlives the worker when a descendant inherited it (R-EXITCODE); the manager then '
+    'exits through the empty-pending branch (R-MGR-EXIT). Also decided: the kill flag as a function of (argument, '
+    'previous flag): None keeps, True sets, False keeps (R-KILL-PATH). Not decided: wall-clock promptness; '
+    'psutil/pgrep semantics.'
 )
 
 
